@@ -230,21 +230,26 @@ def add_forms(forms, matrix, pdf, page, resources, stream, font_map):
             pdf.add_object(field)
 
         elif input_type == 'submit' or element.tag == 'button':
-            flags = 1 << (3 - 1)  # HTML form format
-            if form.attrib.get('method', '').lower() != 'post':
-                flags += 1 << (4 - 1)  # GET method
-            fields = pydyf.Array((field.reference for field in forms[form].values()))
             field['FT'] = '/Btn'
             field['DA'] = pydyf.String(b' '.join(field_stream.stream))
-            field['V'] = pydyf.String(form.attrib.get('value', ''))
             field['Ff'] = 1 << (17 - 1)  # Push-button
-            field['A'] = pydyf.Dictionary({
-                'Type': '/Action',
-                'S': '/SubmitForm',
-                'F': pydyf.String(form.attrib.get('action')),
-                'Fields': fields,
-                'Flags': flags,
-            })
+            if form is None:
+                # Button outside a form, nothing to submit
+                field['V'] = pydyf.String(element.attrib.get('value', ''))
+            else:
+                flags = 1 << (3 - 1)  # HTML form format
+                if form.attrib.get('method', '').lower() != 'post':
+                    flags += 1 << (4 - 1)  # GET method
+                fields = pydyf.Array(
+                    (field.reference for field in forms[form].values()))
+                field['V'] = pydyf.String(form.attrib.get('value', ''))
+                field['A'] = pydyf.Dictionary({
+                    'Type': '/Action',
+                    'S': '/SubmitForm',
+                    'F': pydyf.String(form.attrib.get('action')),
+                    'Fields': fields,
+                    'Flags': flags,
+                })
             pdf.add_object(field)
 
         else:
